@@ -308,7 +308,9 @@ def run(ctx):
         for k, f in byk.items():
             kind_consistent(chk, "C06.d", f, k)
         if len(byk) == 3:
-            siblings_isomorphic(chk, "C06.d", byk, f"Registry::{famname}_*")
+            # every family below has per-function obligations for each sibling (C06.b/c for get_or_create and the lookups,
+            # [truthful result] for delete, [predicate ...] for retain, [every shard] for visit, [visit + clone] for handles)
+            siblings_isomorphic(chk, "C06.d", byk, f"Registry::{famname}_*", advisory=True)
     # clear
     clr = one_method(chk, "C06.d", u, REG, "clear")
     if clr:
@@ -362,6 +364,12 @@ def run(ctx):
                 ok = sym_is_call(r, "FnMut::call_mut", "Fn::call", "FnOnce::call_once") and "('arg', 1, 'f')" in repr(Sym(cf).local(0)) or (sym_is_call(r, "FnMut::call_mut", "Fn::call", "FnOnce::call_once") and rc[0].fn is f)
             elif is_param(sym_through(clos), 1):
                 ok = True  # the caller's predicate itself is handed to retain
+        # ... and it is asked once per entry: one call site of the caller's predicate in the whole function (a pre-scan that
+        # also calls it shows a stateful predicate every entry twice)
+        psites = [c for g_ in f.region() for c in g_.body.calls() if c.is_("FnMut::call_mut", "Fn::call", "FnOnce::call_once") and (("('arg', 1" in repr(Sym(g_).operand(c.args[0]))) if g_ is f else ("capture" in repr(Sym(g_).operand(c.args[0])) and "('arg', 1" in repr(Sym(g_).operand(c.args[0]))))]
+        if ok and len(psites) > 1:
+            ok = False
+            chk.ob("C06.d", f"{f.path} [predicate asked once per entry]", False, f"the caller's predicate is called from {len(psites)} places: entries are shown to a stateful predicate more than once, so what is removed is not what it rejected when asked once", psites[1].loc(), nontrivial=False)
         chk.ob("C06.d", f"{f.path} [predicate un-negated]", ok, "retain keeps exactly the entries the caller's predicate accepts" if ok else "retain does not pass the caller's predicate through unchanged", f.loc())
     # handles = visit + clone
     for k, f in fam["handles"].items():
